@@ -340,7 +340,33 @@ def run(ctx):
             ctx.corr_disagreements.append({"case": l[:600], "impl": e[:600], "model": g[:600], "tag": l.split()[0]})
     ctx.sample({"line": lines[0][:400], "impl": expect[0][:400]})
     ctx.sample({"line": lines[-1], "impl": expect[-1]})
-    import witnesses05
+    # S4: directed witnesses of the listed findings that the random cases only meet by chance
+    import optimum.quanto as q
+    import witnesses07
+
+    def w_circular():
+        m = torch.nn.Sequential(torch.nn.Conv2d(2, 2, 3, padding=1, padding_mode="circular"))
+        q.quantize(m, weights=q.qint8, activations=q.qint8)
+        x = q.quantize_activation(torch.randn(1, 2, 5, 5), q.qint8, torch.tensor(0.05))
+        try:
+            m(x)
+            return False
+        except Exception:  # noqa
+            return True
+
+    wit = {"C08:forward-raises:conv-circular-padding-with-quantized-activations": w_circular,
+           "C08:linear-float8xfloat8-in-float16-overflow": witnesses07.case_f8xf8_f16_overflow,
+           "C08:linear-scale-product-subnormal": witnesses07.case_scale_product_subnormal}
     for sig, f in known_signatures("C08").items():
-        pass
+        if sig in wit:
+            try:
+                with torch.no_grad():
+                    hit = bool(wit[sig]())
+            except Exception:  # noqa
+                hit = False
+            if hit:
+                if sig not in ctx.known_reproduced:
+                    ctx.known_reproduced.append(sig)
+            else:
+                ctx.notes.append(f"known finding {sig} no longer reproduces on its witness")
     return finish(ctx, ["conv2d / layer_norm numerics are torch's own kernels on the dequantized weight (only the glue is modelled)", "module trees with aliased (shared) modules are outside the quantifier"])
